@@ -62,7 +62,7 @@ impl Check for C12 {
         "C12"
     }
     fn entropy_len(&self) -> usize {
-        40
+        120
     }
     fn cases(&self, tier: Tier) -> u64 {
         tier.pick(10_000, 200_000)
@@ -134,6 +134,39 @@ impl Check for C12 {
             _ => src.usize_in(20_000, 100_000),
         };
         let dir: i64 = if src.bool() { 1 } else { -1 };
+        // 1 of 5: non-strictly monotone vectors that are flat almost everywhere (long plateaus, the strict steps bunched at the
+        // start, at the end or at a few places) and staircases - every sub-sample of such a vector may be constant
+        if src.chance(1, 5) {
+            let n = if src.bool() { src.usize_in(20, 400) } else { n };
+            let mut v = vec![0i64; n];
+            let shape = src.below(4);
+            let steps = src.usize_in(1, 7);
+            let mut level = 0i64;
+            for i in 0..n {
+                let step_here = match shape {
+                    0 => i >= n - steps,                                    // moves only at the very end
+                    1 => i >= 1 && i <= steps,                               // moves only at the start
+                    2 => i > 0 && i % src.usize_in(5, 40).max(1) == 0,     // staircase with random tread lengths
+                    _ => i > 0 && (i == n / 3 || i == n / 3 + 1 || i == 2 * n / 3), // a few isolated steps
+                };
+                if step_here {
+                    level += dir;
+                }
+                v[i] = level;
+            }
+            obs.class(["long:flat-then-steps", "long:steps-then-flat", "long:staircase", "long:few-steps"][shape as usize]);
+            let f: Vec<f64> = v.iter().map(|&x| x as f64).collect();
+            expect("f64", "long-plateaus", &Array1::from_vec(f.clone()).view(), &f, obs)?;
+            expect("i64", "long-plateaus", &Array1::from_vec(v.clone()).view(), &v, obs)?;
+            let f32v: Vec<f32> = v.iter().map(|&x| x as f32).collect();
+            expect("f32", "long-plateaus", &Array1::from_vec(f32v.clone()).view(), &f32v, obs)?;
+            let ra = Array1::from_vec(f.iter().rev().cloned().collect::<Vec<f64>>());
+            expect("f64", "long-plateaus-reversed", &ra.slice(s![..;-1]), &f, obs)?;
+            obs.nontrivial = true;
+            obs.key(&(n, shape, steps, dir, v.iter().sum::<i64>()));
+            obs.describe(|| json!({"length": n, "kind": "plateaus", "shape": shape, "direction": dir}));
+            return Ok(());
+        }
         let mut v: Vec<i64> = (0..n as i64).map(|i| dir * i * 3).collect();
         let kind = src.below(5);
         let pos = match src.below(6) {
